@@ -21,7 +21,7 @@ FAMS = gen.ALL_FAMILIES + ("exp_wall", "badly_scaled", "rosenbrock", "oscillatin
 
 def floors(tier):
     return {"runs": 800, "sequence_points": 4000, "line_searches": 3000, "line_searches_without_convergence": 300,
-            "runs_budget_inside_search": 50, "restart_runs": 60, "runs_with_user_step_cap": 100, "__nontrivial__": 200}
+            "runs_budget_inside_search": 50, "restart_runs": 60, "runs_with_user_step_cap": 100, "runs_with_free_optimum_grazing_a_bound": 60, "short_runs_with_capped_first_step": 200, "__nontrivial__": 200}
 
 
 def cases(tier, seed):
@@ -44,6 +44,18 @@ def cases(tier, seed):
         if i % 4 == 1:
             cfg["max_steplength"] = float(gen.pick(rng, [0.05, 0.1, 0.2, 0.5, 1.0, 2.0]))  # the user's cap on the step length
         yield {"problem": ps, "cfg": cfg}
+    # optimum grazing a bound, converged to the last digit
+    for i in range(200 if tier == "quick" else 6000):
+        yield {"problem": {"n": int(rng.integers(1, 7)), "seed": int(rng.integers(0, 2**31 - 1)), "cond": float(np.exp(rng.uniform(0, np.log(1e2))))},
+               "near_bound": True,
+               "cfg": {"jac": "callable", "maxcor": int(rng.integers(2, 11)), "maxls": 20, "maxiter": 200, "maxfun": 15000,
+                       "ftol": float(gen.pick(rng, [0.0, 1e-14, 1e-12])), "gtol": 1e-12, "cb": "never"}}
+    # the user's step cap acting on the very first iteration of multimodal objectives (two iterations are enough)
+    for i in range(600 if tier == "quick" else 20000):
+        ps = gen.rand_spec(rng, ("rastrigin", "ackley", "griewank", "oscillating", "styblinski_tang"), nmax=6, boxes=("boxed", "mixed", "none", "unit"))
+        yield {"problem": ps, "first_step_capped": True,
+               "cfg": {"jac": "callable", "maxcor": 3, "maxls": int(gen.pick(rng, [5, 20])), "maxiter": 2, "maxfun": 15000, "ftol": 1e-9, "gtol": 1e-9,
+                       "cb": "never", "max_steplength": float(gen.pick(rng, [0.02, 0.05, 0.1, 0.2, 0.3, 0.5, 0.8]))}}
     # restarts combined with a gradient scaler (the checkpoint documentation names "some scaling must be performed before
     # starting L-BFGS-B" as a use of restarts)
     nres = 450 if tier == "quick" else 9000
@@ -124,8 +136,18 @@ def run(spec):
     if spec.get("restart"):
         run_restart(spec, out)
         return out
-    P = gen.make_problem(spec["problem"])
+    if spec.get("near_bound"):
+        from .C01 import make_near_bound_optimum
+
+        # minimiser strictly inside the box, within 1e-7..1e-5 (relative) of some bounds: the last iterates move by less than any
+        # "is close to the bound" tolerance, and with a tight ftol every one of them is reported
+        P = make_near_bound_optimum(spec["problem"])
+        out.count("runs_with_free_optimum_grazing_a_bound")
+    else:
+        P = gen.make_problem(spec["problem"])
     cfg = dict(spec["cfg"])
+    if spec.get("first_step_capped"):
+        out.count("short_runs_with_capped_first_step")
     if P.spec["family"] == "exp_wall":
         # start on the steep side of the wall, as in the repository's abnormal-termination test
         P.x0 = np.clip(P.x0 - 3.0, P.lb, P.ub)
